@@ -22,7 +22,7 @@ ANCHORS = ["decaylanguage.utils.particleutils:charge_conjugate_name", "decaylang
            "decaylanguage.decay.decay:DecayMode.charge_conjugate", "decaylanguage.dec.dec:ChargeConjugateReplacement.particle"]
 WORKERS = {"quick": 4, "thorough": 16}
 WTESTS = {"groups": ['conj'], "tests": ['tests/decay', 'tests/utils', 'tests/dec/test_dec.py']}
-REQUIRED = {"visitor-applied-twice-to-one-tree": 5, "cross-layer-file:both-tables-read-with-details:conjugate-first": 2, "cross-layer-file:both-tables-read-with-details:source-first": 2, "kind:has-antiparticle": 300, "kind:self-conjugate": 50, "kind:in-table-no-conjugate": 10, "kind:unknown-label": 50,
+REQUIRED = {"direct-use-with-the-callers-own-table-of-pairs": 50, "visitor-applied-twice-to-one-tree": 5, "cross-layer-file:both-tables-read-with-details:conjugate-first": 2, "cross-layer-file:both-tables-read-with-details:source-first": 2, "kind:has-antiparticle": 300, "kind:self-conjugate": 50, "kind:in-table-no-conjugate": 10, "kind:unknown-label": 50,
             "pdg-route": 500, "multiplicity>=4": 20, "metadata>=2-user-keys": 20, "cross-layer-file": 10, "evtgen-only-spelling-through-the-pdg-route": 100, "cross-layer-file-with-the-cdecay-statement-twice": 3, "particle-and-antiparticle-with-unequal-multiplicities": 20, "names-again-after-an-ampgen-read-in-the-same-process": 100, "cross-layer-file-with-copy": 5, "cross-layer-file-with-sourceless-cdecay:sorting-first": 3, "returned-value-mutated-then-again": 50, "cache-cold": 1, "cache-evicting": 1,
             "C04.name.matches_table_oracle": 1000, "C04.daughters.each_particle_with_multiplicity": 100, "C04.mode.bf_and_metadata_kept": 100}
 EXHAUSTIVE_NOTE = "every EvtGen name and every PDG name of the installed tables is visited by every worker subset union (sharded), both cache states"
@@ -248,6 +248,55 @@ def check_file(ctx, mother, lines):
     ctx.sample({"file": text, "conjugated_lines": got})
 
 
+def check_user_table(ctx, pairs_, others):
+    """The documented direct use of the .dec conjugation layer with the caller's own table of ChargeConj pairs (what dict_charge_conjugates() returns):
+    `find_charge_conjugate_match(name, table)` and the visitor built with `charge_conj_defs=table`.  A pair is read both ways, conjugating twice gives the
+    name back, names outside the table go by the particle table."""
+    from lark import Token, Tree  # noqa: PLC0415
+
+    from decaylanguage.dec.dec import ChargeConjugateReplacement, find_charge_conjugate_match  # noqa: PLC0415
+
+    table = dict(pairs_)
+    wit = {"kind": "user-table", "pairs": [list(x) for x in pairs_], "others": list(others)}
+    ctx.case({"user-table": wit["pairs"], "others": wit["others"]}, nontrivial=True, workload="user-table")
+    ctx.hit("direct-use-with-the-callers-own-table-of-pairs")
+    want = {}
+    for a, b in pairs_:
+        want[a], want[b] = b, a
+    for n in others:
+        want.setdefault(n, names.conj(n))
+    ctx.mon("C04.direct.user-table")
+    for n, w in want.items():
+        ok, got = ctx.guard("user-table:match", {**wit, "name": n}, find_charge_conjugate_match, n, dict(table))
+        if ok and got != w:
+            ctx.violate("user-table:match", f"find_charge_conjugate_match({n!r}, {table!r}) = {got!r} expected {w!r}", {**wit, "name": n})
+            return
+    names_in = list(want)
+    ctx.rng.shuffle(names_in)
+
+    def visit_twice():
+        t = Tree("decay", [Tree("particle", [Token("LABEL", names_in[0])]),
+                           Tree("decayline", [Tree("value", [Token("SIGNED_NUMBER", "1.0")])] + [Tree("particle", [Token("LABEL", d)]) for d in names_in] + [Tree("model", [Token("MODEL_NAME", "PHSP")])])])
+
+        def read(t):
+            return [t.children[0].children[0].value] + [c.children[0].value for c in t.children[1].children if c.data == "particle"]
+
+        ChargeConjugateReplacement(charge_conj_defs=dict(table)).visit(t)
+        once = read(t)
+        ChargeConjugateReplacement(charge_conj_defs=dict(table)).visit(t)
+        return once, read(t)
+
+    ok, res = ctx.guard("user-table:visitor", wit, visit_twice)
+    if ok:
+        once, twice = res
+        w1 = [want[names_in[0]]] + [want[d] for d in names_in]
+        back = [n for n in [names_in[0], *names_in] ]
+        if once != w1:
+            ctx.violate("user-table:visitor:first-visit", f"after one visit {once} expected {w1}", wit)
+        elif any(("ChargeConj(" not in a) and b != c for a, b, c in zip(w1, twice, back)):
+            ctx.violate("user-table:visitor:second-visit-is-not-the-original", f"after two visits {twice} expected {back}", wit)
+
+
 def run(ctx):
     contracts.arm("conj")
     from decaylanguage.utils.particleutils import charge_conjugate_name as ccn  # noqa: PLC0415
@@ -310,6 +359,18 @@ def run(ctx):
             ds = [d for d in ds if d not in ("PHOTOS",)]
             lines.append([rng.choice(["1.0", "0.25", ".5", "2E-3"]), ds])
         check_file(ctx, m, lines)
+    # the caller's own table of ChargeConj pairs handed to the .dec conjugation layer directly
+    for i in range(ctx.pick(60, 600)):
+        k = rng.choice([1, 1, 2, 3, 5])
+        stems = rng.sample(["MyD0", "MyB+", "Mysig", "MyK*0", "MyLambda", "Myphi_sig", "MyJpsi", "MyTau", "MyX", "My_a1"], k)
+        pr = []
+        for st in stems:
+            a, b = (st, "MyAnti-" + st[2:]) if rng.random() < 0.5 else ("anti-" + st, st)
+            pr.append((a, b) if rng.random() < 0.5 else (b, a))
+        if rng.random() < 0.3:      # an alias paired with a plain table name (one-sided signal alias)
+            m_, mb_ = rng.choice(pairs)
+            pr.append(("MySig" + str(i), mb_))
+        check_user_table(ctx, pr, rng.sample(evt, 3) + rng.sample(UNKNOWN[:6], 1))
     # history: an AmpGen model is read in this interpreter (the library then appends its special particles to the particle table); names mean what they meant
     try:
         from decaylanguage.modeling.amplitudechain import AmplitudeChain  # noqa: PLC0415
@@ -336,5 +397,7 @@ def replay(ctx, w):
         check_name(ctx, w["name"], w["pdg_name"], "replay")
     elif w["kind"] == "mode":
         check_mode(ctx, w["fs"], w["bf"], w["meta"], w["pdg_name"])
+    elif w["kind"] == "user-table":
+        check_user_table(ctx, [tuple(x) for x in w["pairs"]], w["others"])
     else:
         check_file(ctx, w["mother"], w["lines"])
